@@ -406,7 +406,8 @@ Definition back_tail (w : world) (n : nat) (now : Z) (c : client) (p : params) (
                  <| a_expires := (now + cf_ciba_lifetime cfg)%Z |>
                  <| a_jkt := if push then set_pop_jkt cfg (br_bind r) else 0%N |>
                  <| a_x5t := if push then set_pop_x5t cfg (br_bind r) else 0%N |>
-                 <| a_subject := br_sub r |> <| a_granted := br_granted r |> in
+                 <| a_subject := br_sub r |> <| a_granted := br_granted r |>
+                 <| a_granted_res := br_granted_res r |> in
       if negb (br_init_ok r) then Ret (OErr EAccessDenied) else
       save_a s (fun rs =>
         match rs with RFail => Ret (OErr EInternalError)
